@@ -73,6 +73,8 @@ theorem storeBlock_err (env : Env L) (s s' : Node L) (b : Block) (e : Err)
   unfold storeBlock at h
   split at h
   · cases h; exact ⟨Or.inl rfl, rfl⟩
+  split at h
+  · cases h; exact ⟨Or.inl rfl, rfl⟩
   · rename_i l' hl
     split at h
     · cases h
@@ -84,12 +86,21 @@ theorem storeBlock_ok (env : Env L) (s s' : Node L) (b : Block)
   unfold storeBlock at h
   split at h
   · cases h
+  split at h
+  · cases h
   · rename_i l' hl
     split at h
     · rename_i hn
       cases h
       exact ⟨l', hl, hn, rfl⟩
     · cases h
+
+theorem storeBlock_ok_primary (env : Env L) (s s' : Node L) (b : Block)
+    (h : storeBlock env s b = (s', none)) : primaryOK env b = true := by
+  unfold storeBlock at h
+  split at h
+  · cases h
+  · rename_i hp; simpa using hp
 
 /-- the header step leaves everything but the header list alone; it either fails without a trace,
 or records exactly this header (verified unless SkipBlockVerification), or finds it already
